@@ -485,7 +485,10 @@ def make_kernels(spec):
     def one(s):
         if s is None:
             return None
-        return {"huber": K.Huber, "pseudohuber": K.PseudoHuber, "cauchy": K.Cauchy}[s[0]](s[1])
+        key = (s[0], float(s[1]))      # kernel objects are shared between optimizers of one run as well
+        if key not in _SHARED["kernels"]:
+            _SHARED["kernels"][key] = {"huber": K.Huber, "pseudohuber": K.PseudoHuber, "cauchy": K.Cauchy}[s[0]](s[1])
+        return _SHARED["kernels"][key]
     if isinstance(spec[0], str):
         return one(spec)
     return [one(s) for s in spec]
@@ -594,14 +597,14 @@ def lie_kinds(module):
     return out
 
 
-def restore_excess(kinds, before, after, dmag, eps):
+def restore_excess(kinds, before, after, dmag, eps, trial=None):
     """largest (difference / allowed round-off) over the parameters after Retr(Retr(p, D), -D).
     Euclidean: (p + D) - D, 16·eps·(|p| + |D|).  Quaternion part of a pose: 64·eps·(1 + |D|)² (the angle's own rounding).
     Translation part of an SE3 pose: the accuracy property C01 grants to the translation block of Exp, 4·√eps·scale
     (the closed-form coefficients (1-cos θ)/θ² cancel for small non-zero angles)."""
     worst, info = 0.0, ""
     dm = min(dmag, 1e140)
-    for kd, a, b in zip(kinds, before, after):
+    for idx, (kd, a, b) in enumerate(zip(kinds, before, after)):
         a, b = a.double(), b.double()
         if kd == "SE3":
             parts = [("translation", a[..., :3], b[..., :3], 4 * math.sqrt(eps) * (1.0 + dm + float(a[..., :3].abs().max()))),
@@ -609,7 +612,20 @@ def restore_excess(kinds, before, after, dmag, eps):
         elif kd == "SO3":
             parts = [("rotation", a, b, 64 * eps * (1.0 + dm) ** 2)]
         else:
-            parts = [("euclidean", a, b, 16 * eps * ((float(a.abs().max()) if a.numel() else 0.0) + dm) + 1e-300)]
+            if trial is not None:
+                # element by element: (p_i + D_i) - D_i, round-off 16·eps·(|p_i| + |p_i + D_i|); no global magnitude factor
+                tr = trial[idx].double()
+                tol = 16 * eps * (a.abs() + tr.abs()) + 1e-300
+            else:
+                tol = torch.full_like(a, 16 * eps * ((float(a.abs().max()) if a.numel() else 0.0) + dm) + 1e-300)
+            if a.numel():
+                ratio = (a - b).abs() / tol
+                j = int(ratio.flatten().argmax())
+                if float(ratio.flatten()[j]) > worst:
+                    worst = float(ratio.flatten()[j])
+                    info = (f"euclidean entry {j} differs by {float((a - b).abs().flatten()[j]):.3e} "
+                            f"(allowed {float(tol.flatten()[j]):.3e})")
+            continue
         for name, x, y, tol in parts:
             if not x.numel():
                 continue
@@ -623,17 +639,113 @@ def param_mag(a_list):
     return max((float(a.double().abs().max()) if a.numel() else 0.0) for a in a_list)
 
 
+# ============================================================================ views, aliases, shared objects
+
+SENT = 7.25
+_SHARED = {"solvers": {}, "kernels": {}}
+
+
+def present(t, form):
+    """the same data presented to one call as `form`: 'plain' (the caller's tensor itself), 'clone', 'strided'
+    (non-contiguous view of a buffer twice as wide), 'slice' (interior of a larger buffer).
+    -> (tensor to pass, check) ; check() returns a description of a purity violation or None"""
+    P = pp()
+    if t is None:
+        return None, (lambda: None)
+    if isinstance(t, (tuple, list)):
+        parts = [present(x, form) for x in t]
+        return type(t)(a for a, _ in parts), (lambda: next((m for m in (c() for _, c in parts) if m), None))
+    is_lie = isinstance(t, P.LieTensor)
+    base = raw(t)
+    buf, view = None, None
+    if form == "plain":
+        return t, (lambda: None if torch.equal(raw(t), base) else "the caller's tensor was modified by step()")
+    if form == "clone":
+        view = base.clone()
+    elif form == "transposed" and base.dim() >= 2:
+        buf = base.transpose(-1, -2).contiguous()
+        view = buf.transpose(-1, -2)                      # same values, column-major storage
+        mask = torch.zeros_like(buf, dtype=torch.bool)
+    elif form in ("strided", "transposed") and base.dim() >= 1:
+        # every second column of a padded buffer: rows are not contiguous and not collapsible to one stride
+        w = base.shape[-1]
+        buf = torch.full(base.shape[:-1] + (2 * w + 3,), SENT, dtype=base.dtype)
+        buf[..., 1:1 + 2 * w:2] = base
+        view = buf[..., 1:1 + 2 * w:2]
+        mask = torch.ones_like(buf, dtype=torch.bool)
+        mask[..., 1:1 + 2 * w:2] = False
+    else:   # slice
+        if base.dim() == 0:
+            buf = torch.stack([torch.tensor(SENT, dtype=base.dtype), base, torch.tensor(SENT, dtype=base.dtype)])
+            view = buf[1]
+            mask = torch.tensor([True, False, True])
+        else:
+            buf = torch.full((base.shape[0] + 4,) + tuple(base.shape[1:]), SENT, dtype=base.dtype)
+            buf[2:-2] = base
+            view = buf[2:-2]
+            mask = torch.zeros_like(buf, dtype=torch.bool)
+            mask[:2] = True
+            mask[-2:] = True
+    arg = P.LieTensor(view, ltype=t.ltype) if is_lie else view
+
+    def check():
+        if not torch.equal(view, base):
+            return f"an argument passed as a {form} view was modified by step()"
+        if buf is not None and not bool((buf[mask] == SENT).all()):
+            return f"storage outside the {form} view passed to step() was written"
+        return None
+    return arg, check
+
+
+def apply_param_view(module, mode):
+    """re-allocate every 1-D Euclidean parameter as a view ('slice' contiguous / 'strided') into a larger buffer with
+    sentinels; returns the list of (buffer, mask of cells outside the view)"""
+    P = pp()
+    out = []
+    if not mode:
+        return out
+    for name, p in list(module._parameters.items()):
+        if isinstance(p, P.LieTensor) or p.dim() != 1:
+            continue
+        n = p.numel()
+        buf = torch.full((2 * n + 4,), SENT, dtype=p.dtype)
+        mask = torch.ones(2 * n + 4, dtype=torch.bool)
+        if mode == "slice":
+            view = buf[2:2 + n]
+            mask[2:2 + n] = False
+        else:
+            view = buf[2:2 + 2 * n:2]
+            mask[2:2 + 2 * n:2] = False
+        view.copy_(p.detach())
+        module._parameters[name] = nn.Parameter(view)
+        out.append((buf, mask))
+    return out
+
+
+def optimizer_attrs(opt, is_lm, kind=None) -> dict:
+    """public configuration that a step() call has no business changing"""
+    pg = opt.param_groups[0]
+    mutable = {"params", "damping", "radius"} | ({"down"} if kind == "trust" else set())
+    if kind == "constant":
+        mutable = {"params", "radius"}
+    d = {"solver": id(opt.solver), "weight": id(opt.weight), "jackwargs": dict(opt.jackwargs),
+         "correctors": [id(c) for c in opt.corrector], "kernels": [id(k) for k in opt.model.kernel],
+         "defaults": {k: v for k, v in opt.defaults.items()}, "groups": len(opt.param_groups),
+         "pg": {k: v for k, v in pg.items() if k not in mutable}}
+    if is_lm:
+        d.update(reject=opt.reject, strategy=id(opt.strategy), sparse=opt.sparse)
+    return d
+
+
 # ============================================================================ LM / GN scenarios
 
 def make_solver(name):
+    """one instance of each library solver per run, shared by every scenario (sizes and dtypes vary between uses)"""
     S = pp().optim.solver
-    if name == "cholesky":
-        return S.Cholesky()
-    if name == "pinv":
-        return S.PINV()
-    if name == "lstsq":
-        return S.LSTSQ()
-    return lambda A, b: torch.linalg.solve(A, b)
+    if name not in _SHARED["solvers"]:
+        _SHARED["solvers"][name] = (S.Cholesky() if name == "cholesky" else S.PINV() if name == "pinv" else
+                                    S.LSTSQ() if name == "lstsq" else (lambda A, b: torch.linalg.solve(A, b)))
+    return _SHARED["solvers"][name]
 
 
 def scn_plan(scn):
@@ -678,12 +790,36 @@ class CallLog:
     pass
 
 
-def run_optimizer_scenario(ctx: Ctx, scn, collect):
+def run_optimizer_scenario(ctx: Ctx, scn, collect, shared_inner=None):
     """runs the scenario on the real code, evaluates the oracles, appends model requests to `collect`.
     Returns number of failures raised by the oracles."""
+    n0 = len(ctx.failures)
+    for _ in scenario_steps(ctx, scn, collect, shared_inner):
+        pass
+    return len(ctx.failures) - n0
+
+
+def scenario_steps(ctx: Ctx, scn, collect, shared_inner=None):
+    """generator: each `next()` performs one step() call of the scenario with all its oracles (so that several
+    optimizers — possibly sharing a strategy object — can be interleaved)"""
+    try:
+        yield from _scenario_steps(ctx, scn, collect, shared_inner)
+    except (common.InfraError, ScriptedFailure, TrialLimit, GeneratorExit):
+        raise
+    except Exception as e:
+        # any misbehaviour of the implementation (exception, wrong type/shape, missing attribute, an event sequence
+        # without the structure of the loop) is a failing input of the property, never a failure of the harness
+        import traceback
+        tb = traceback.format_exc()
+        where = "inside pypose" if "/pypose/" in tb else "while reading the optimizer's observable state"
+        ctx.fail(scn, f"crash: {type(e).__name__}: {str(e)[:160]} ({where}); {tb.strip().splitlines()[-3].strip()[:160]}")
+
+
+def _scenario_steps(ctx: Ctx, scn, collect, shared_inner=None):
     P = pp()
     n0 = len(ctx.failures)
     module, inp, target = build_problem(scn)
+    pbufs = apply_param_view(module, scn.get("param_view"))
     dtype = scn["dtype"]
     eps = EPS[dtype]
     kspec = scn.get("kernel")
@@ -695,7 +831,7 @@ def run_optimizer_scenario(ctx: Ctx, scn, collect):
     solver = RecSolver(make_solver(scn["solver"]), plan)
     solver.module = module
     if is_lm:
-        strat = RecStrategy(make_strategy(scn["strategy"]))
+        strat = RecStrategy(shared_inner if shared_inner is not None else make_strategy(scn["strategy"]))
         strat.module = module
         opt = P.optim.LM(module, solver=solver, strategy=strat, kernel=make_kernels(kspec), reject=scn["reject"],
                          min=scn["lm_min"], max=scn["lm_max"], vectorize=scn.get("vectorize", True))
@@ -705,9 +841,15 @@ def run_optimizer_scenario(ctx: Ctx, scn, collect):
     solver.opt = opt
     reject = scn.get("reject", 0)
     solver.limit = reject + 40
-    tl = lambda: true_loss(module, inp, target, kspec)
+    cur_args = [inp, target]      # the tensors of the current call (same data; layout may differ from call to call)
+    tl = lambda: true_loss(module, cur_args[0], cur_args[1], kspec)
     lie = scn["family"] in ("so3", "se3", "mixed")
     kinds = lie_kinds(module)
+    forms = scn.get("forms") or []
+    pg_edits = scn.get("pg_edits") or []
+    reject_edits = {int(c): int(v) for c, v in (scn.get("reject_edits") or [])}
+    skind = scn["strategy"]["kind"] if is_lm else None
+    handed_out = []       # (tensor object returned by an earlier call / left in optimizer.last, its value then)
 
     def fail(what):
         ctx.fail(scn, what)
@@ -719,23 +861,52 @@ def run_optimizer_scenario(ctx: Ctx, scn, collect):
     gn_obs = []
     first_loss = None
     for call in range(scn["ncalls"]):
+        if call:
+            yield call
+        # the caller edits public state between calls: optimizer.reject, entries of param_groups
+        if is_lm and call in reject_edits:
+            opt.reject = reject = reject_edits[call]
+            ctx.count("class.reject-edit")
+            solver.limit = reject + 40
+        pg = opt.param_groups[0]
+        if is_lm:
+            for c_, key, val in pg_edits:
+                if c_ == call and key in pg:
+                    ctx.count(f"class.pg-edit.{key}")
+                    pg[key] = val
+                    if key == "damping" and "radius" in pg:
+                        pg["radius"] = 1.0 / val       # reachable states only
+                    prev_pg = None                      # continuity is re-based on the edited group
         solver.call, solver.trial = call, 0
         s0, u0 = len(solver.log), (len(strat.log) if strat else 0)
         given = [raw(p) for p in module.parameters()]
+        form = forms[call % len(forms)] if forms else "plain"
+        inp_c, chk_in = present(inp, form)
+        tgt_c, chk_tg = present(target, form if form != "plain" else "plain")
+        # the user model's forward rounds differently for another memory layout of the same data: the loss cached by
+        # the previous call may differ from the loss evaluated through this call's tensors by that much
+        prev_true = float(tl())
+        cur_args[0], cur_args[1] = inp_c, tgt_c
         given_true = tl()
+        layout_slack = abs(prev_true - float(given_true)) if call else 0.0
         had_cache = hasattr(opt, "loss")
         cached = float(opt.loss) if had_cache else None
-        pg = opt.param_groups[0]
         pg_before_call = pg_state(pg) if is_lm else None
         hyper_call = pg_hyper(pg, strat.inner) if is_lm else None
+        attrs0 = optimizer_attrs(opt, is_lm, skind)
+        ctx.count(f"class.input-form.{form}")
+        if call == 0 and scn.get("param_view"):
+            ctx.count(f"class.param-view.{scn['param_view']}")
+        if call == 0 and shared_inner is not None:
+            ctx.count("class.shared-strategy-object")
         exc = None
         with contextlib.redirect_stdout(io.StringIO()):
             try:
-                ret = opt.step(inp, target)
+                ret = opt.step(inp_c, tgt_c)
             except TrialLimit:
                 ctx.fail(scn, f"trials: a call made more than {reject + 40} trials with reject={reject} (at most reject+1 allowed); "
                               f"the loop does not terminate (call {call})")
-                return len(ctx.failures) - n0
+                return
             except ScriptedFailure as e:
                 exc = e
             except Exception as e:
@@ -763,6 +934,47 @@ def run_optimizer_scenario(ctx: Ctx, scn, collect):
             ctx.count("abandoned.non-finite")
             break
         tol_loss = lambda v: 64 * eps * (max(abs(v), getattr(v, "scale", 0.0)) + 1e-300) + 2 * drift
+        tol_cache = lambda v: tol_loss(v) + 2 * layout_slack
+
+        # ---- purity of the caller's tensors (views / slices of larger buffers), of parameter buffers outside the
+        #      parameter views, of the tensors handed to the user's solver / strategy; configuration untouched
+        for msg in (chk_in(), chk_tg()):
+            if msg:
+                fail(f"purity: {msg} (input form '{form}', call {call})")
+        for buf, mask in pbufs:
+            if not bool((buf[mask] == SENT).all()):
+                fail(f"purity: storage outside a parameter that is a view of a larger buffer was written (call {call})")
+        changed = diff_attrs(attrs0, optimizer_attrs(opt, is_lm, skind))
+        if changed:
+            fail(f"attributes: step() changed the optimizer's configuration {changed} (call {call})")
+        for ev in sol:
+            if "D_ref" in ev and not torch.equal(raw(ev["D_ref"]), ev["D"]):
+                fail(f"callback-purity: the step returned by the user's solver was modified in place by step() (call {call})")
+        for u in ups:
+            if u["args_changed"] or not all(torch.equal(raw(r), c) for r, c in zip(u["refs"][:3], (u["J"], u["D"], u["R"]))):
+                fail(f"callback-purity: tensors handed to strategy.update were modified afterwards (call {call})")
+            if u["strategy_attrs_changed"]:
+                fail(f"strategy-state: update() changed attributes {u['strategy_attrs_changed']} of the strategy object "
+                     f"(all mutable state belongs to the param group) (call {call})")
+            extra = diff_attrs({k: v for k, v in u["pg_full_before"].items() if k not in ("damping", "radius", "down")},
+                               {k: v for k, v in u["pg_full_after"].items() if k not in ("damping", "radius", "down")})
+            if extra:
+                fail(f"strategy-state: update() changed read-only entries {extra} of the param group (call {call})")
+        # ---- values handed out by earlier calls must not change afterwards (no in-place reuse of the cache tensors)
+        for obj, val, where_ in handed_out:
+            cur_v = float(obj)
+            if cur_v != val and not (math.isnan(cur_v) and math.isnan(val)):
+                fail(f"alias: the tensor {where_} changed from {val!r} to {cur_v!r} during a later call (call {call})")
+                break
+        if exc is None and isinstance(ret, torch.Tensor):
+            handed_out.append((ret, float(ret), f"returned by step() in call {call}"))
+            if hasattr(opt, "last") and isinstance(opt.last, torch.Tensor):
+                handed_out.append((opt.last, float(opt.last), f"left in optimizer.last by call {call}"))
+            handed_out = handed_out[-8:]
+        if exc is None and (not isinstance(ret, torch.Tensor) or ret.numel() != 1):
+            fail(f"return-type: step() returned {type(ret).__name__} of shape {tuple(getattr(ret, 'shape', ()))}, expected a scalar tensor "
+                 f"(call {call})")
+            return
 
         if not is_lm:
             # ------------------------------------------------------------------ GaussNewton
@@ -790,7 +1002,7 @@ def run_optimizer_scenario(ctx: Ctx, scn, collect):
             lastf = float(opt.last)
             if had_cache and lastf != cached:
                 fail(f"gn-last: optimizer.last = {lastf!r} after the call but optimizer.loss was {cached!r} before it (call {call})")
-            if far(lastf, given_true, tol_loss(given_true), dtype):
+            if far(lastf, given_true, tol_cache(given_true), dtype):
                 fail(f"gn-last: optimizer.last = {lastf!r} but the loss at the previous parameters is {given_true!r} (call {call})")
             gn_steps.append((0, retf))
             gn_obs.append((retf, lastf))
@@ -826,7 +1038,7 @@ def run_optimizer_scenario(ctx: Ctx, scn, collect):
             if param_dist(final, sol[-1]["params"] if ntr else given) != 0.0:
                 fail(f"solver-raise: parameters changed by a trial whose solve raised (call {call})")
             t_final = given_true
-            if far(retf, given_true, tol_loss(given_true), dtype):
+            if far(retf, given_true, tol_cache(given_true), dtype):
                 fail(f"solver-raise: solver raised at trial {ntr - 1}; step returned {retf!r} but the loss at the "
                      f"parameters (as before that trial) is {given_true!r} (call {call})")
             if ntr >= 2:
@@ -834,21 +1046,28 @@ def run_optimizer_scenario(ctx: Ctx, scn, collect):
                 # parameters before the trials: allow for the loss difference between the two from now on
                 drift += abs(float(tl()) - float(given_true))
         # ---- loss at the parameters given: optimizer.last
-        if far(optlast, given_true, tol_loss(given_true), dtype):
+        if far(optlast, given_true, tol_cache(given_true), dtype):
             fail(f"last: optimizer.last = {optlast!r} but the loss at the parameters the call was given is {given_true!r} "
                  f"(call {call})")
-        if had_cache and abs(optlast - cached) > tol_loss(given_true):
+        if had_cache and abs(optlast - cached) > tol_cache(given_true):
             fail(f"last: optimizer.last = {optlast!r} differs from optimizer.loss = {cached!r} cached by the previous call "
                  f"(call {call})")
         # ---- never worse unless exhausted *in this call*
         rejections = max(ntr - 1, 0)
-        if retf > optlast or retf > given_true + tol_loss(given_true):
+        if retf > optlast or retf > given_true + tol_cache(given_true):
             if rejections != reject:
                 fail(f"monotone: step returned {retf!r} > loss at the given parameters {given_true!r} after only "
                      f"{rejections} rejections in this call (reject={reject}) (call {call})")
         if rc != rejections and ntr:
             fail(f"reject-count: optimizer.reject_count = {rc} but {rejections} trials were rejected in this call (call {call})")
         # ---- every rejected trial restores the parameters; trial losses are true losses
+        trial_pts, ui_ = [], 0
+        for ev in sol:
+            if ev["raised"] or ui_ >= len(ups):
+                trial_pts.append(None)
+            else:
+                trial_pts.append(ups[ui_]["params"])
+                ui_ += 1
         for t, ev in enumerate(sol):
             # state at the top of the loop before trial t
             before = ev["params"]
@@ -856,7 +1075,7 @@ def run_optimizer_scenario(ctx: Ctx, scn, collect):
             if t > 0:
                 prev = sol[t - 1]
                 dmag = float(prev["D"].abs().max()) if "D" in prev else 0.0
-                worst, info = restore_excess(kinds, sol[t - 1]["params"], before, dmag, eps)
+                worst, info = restore_excess(kinds, sol[t - 1]["params"], before, dmag, eps, trial=trial_pts[t - 1])
                 if worst > 1.0:
                     fail(f"restore: after rejected trial {t - 1} the parameters differ from those before the trial: {info}, "
                          f"|D|={dmag:.3e} (call {call})")
@@ -959,7 +1178,6 @@ def run_optimizer_scenario(ctx: Ctx, scn, collect):
         first = first_loss if first_loss is not None else 0.0
         line = f"c08.gn 0 {to_wire(first)} {len(gn_steps)} " + " ".join(f"{r}:0 {to_wire(l)}" for r, l in gn_steps)
         collect["gn"].append({"line": line, "scn": scn, "obs": gn_obs})
-    return len(ctx.failures) - n0
 
 
 def upd_request(scn, kind, up, dtype, where=""):
@@ -1086,6 +1304,11 @@ def settle_lm(ctx: Ctx, items, ambiguous_scn_calls):
                     det.append(f"pg after trial {t}: model {[float(x) for x in row[6:9]]} implementation {stt}")
             if det:
                 ctx.disagree("lm", it["scn"], f"call {call}, after pass {t + 1} of {ntr}: " + "; ".join(det))
+                hard = [d for d in det if not d.startswith("pg after")]
+                if hard:
+                    # the decisions are the property's own law: with the observed trial losses a trial is rejected iff it is
+                    # worse and fewer than `reject` were rejected; a raise or an accepted trial ends the call
+                    ctx.fail(it["scn"], f"loop-law: call {call}, after pass {t + 1} of {ntr}: " + "; ".join(hard))
                 break
         else:
             fin = rows[ntr]
@@ -1106,6 +1329,8 @@ def settle_gn(ctx: Ctx, items):
             p, loss, last, have = nums[4 * i: 4 * i + 4]
             if loss != cfr(ob[0]) or last != cfr(ob[1]) or int(have) != 1:
                 ctx.disagree("gn", it["scn"], f"GN call {i}: model (loss,last)=({float(loss)!r},{float(last)!r}) implementation {ob}")
+                ctx.fail(it["scn"], f"gn-law: GN call {i}: returned loss / recorded previous loss should be ({float(loss)!r}, {float(last)!r}), "
+                                    f"the implementation has {ob}")
                 break
 
 
@@ -1130,6 +1355,15 @@ def gen_strategy_spec(rng, kind=None):
     else:
         smin = rng.choice([1e-12, 1e-8, 1e-6, 1e-3, 0.1])
         smax = smin * rng.choice([1.0, 10.0, 1e4, 1e10, 1e20])
+    if rng.random() < 0.1:
+        # extreme but legal (the constructors only assert signs and the open unit interval)
+        up = rng.choice([1e6, 1e3, 1.0 + 2.0 ** -30, up])
+        down = rng.choice([1e-8, 1.0 - 2.0 ** -20, down])
+        factor = rng.choice([1e-6, 1.0 - 2.0 ** -20, factor])
+        high = rng.choice([1e-12, 1e6, high])
+        low = rng.choice([1e-15, 1e3, low])
+        damping = rng.choice([1e-30, 1e-15, 1e15, 1e30])
+        smin, smax = rng.choice([(1e-300, 1e300), (1e-30, 1e30), (damping, damping), (1e-300, damping), (damping, 1e300)])
     spec = {"kind": kind, "damping": damping, "high": high, "low": low, "up": up, "down": down, "factor": factor,
             "min": smin, "max": smax}
     if kind == "trust":
@@ -1217,8 +1451,8 @@ def place_damping(rng, spec, pg, strat):
         pg["radius"] = 1.0 / pg["damping"]      # reachable states only: radius and damping are always reciprocal
 
 
-def run_upd_stream(ctx: Ctx, n):
-    rng = ctx.rng
+def run_upd_stream(ctx: Ctx, n, rng=None):
+    rng = rng or ctx.rng
     reqs = []
     for i in range(n):
         spec = gen_strategy_spec(rng)
@@ -1286,8 +1520,70 @@ def run_hist_case(ctx: Ctx, case):
     return {"line": line, "case": case, "log": rec.log, "spec": spec}
 
 
-def run_hist_stream(ctx: Ctx, n):
-    rng = ctx.rng
+def run_edithist_case(ctx: Ctx, case):
+    """one strategy object serving several param groups (different Jacobian sizes / dtypes), updates interleaved, and the
+    caller editing the read-only entries of a group between updates so that the same quality changes its verdict:
+    every update must read the *current* group, and touch only that group"""
+    import random
+    rr = random.Random(case["seed"])
+    spec = case["spec"]
+    strat = make_strategy(spec)
+    rec = RecStrategy(strat)
+    K = case["groups"]
+    pgs = []
+    for g in range(K):
+        pg = dict(strat.defaults)
+        pg["damping"] = pg["damping"] * (1.0 + g)
+        if "radius" in pg:
+            pg["radius"] = 1.0 / pg["damping"]
+        pgs.append(pg)
+    reqs = []
+    toggles = {"high": [0.5, 0.25], "low": [2.0 ** -10, 0.125], "up": [2.0, 8.0], "down": [0.5, 0.125], "factor": [0.5, 0.25]}
+    editable = [k for k in toggles if k in pgs[0] and not (spec["kind"] == "trust" and k == "down")]
+    for i in range(case["n"]):
+        g = rr.randrange(K)
+        pg = pgs[g]
+        if editable and rr.random() < 0.4:
+            key = rr.choice(editable)
+            pg[key] = rr.choice(toggles[key])
+        qv = rr.choice([0.0625, 0.375, 0.75, -1.0])
+        dt = torch.float64 if g % 2 == 0 else torch.float32
+        m = g + 1
+        J = torch.zeros(m, 1, dtype=dt)
+        J[0, 0] = 1.0
+        D = torch.ones(1, 1, dtype=dt)
+        R = torch.zeros(m, 1, dtype=dt)
+        R[0, 0] = -1.0                                   # den = -(1 * (-2 + 1)) = 1, quality = last - loss exactly
+        others = [dict(p) for j, p in enumerate(pgs) if j != g]
+        rec.update(pg, last=torch.tensor(qv + 2.0, dtype=dt), loss=torch.tensor(2.0, dtype=dt), J=J, D=D, R=R)
+        up = rec.log[-1]
+        if [dict(p) for j, p in enumerate(pgs) if j != g] != others:
+            ctx.fail(case, f"strategy-state: update {i} on param group {g} changed another param group served by the same strategy object")
+        if up["strategy_attrs_changed"]:
+            ctx.fail(case, f"strategy-state: update() changed attributes {up['strategy_attrs_changed']} of the strategy object")
+        check_bounds_direct(ctx, case, spec["kind"], up)
+        reqs.append(upd_request(case, spec["kind"], up, "float64" if g % 2 == 0 else "float32", where=f"update {i} (group {g})"))
+    return reqs
+
+
+def run_edithist_stream(ctx: Ctx, n, rng=None):
+    rng = rng or ctx.rng
+    reqs = []
+    for i in range(n):
+        kind = rng.choice(["adaptive", "trust", "adaptive", "trust", "constant"])
+        spec = {"kind": kind, "damping": rng.choice([1e-3, 0.1, 1.0]), "high": 0.5, "low": 2.0 ** -10, "up": 2.0, "down": 0.5, "factor": 0.5,
+                "min": 1e-6, "max": 1e16}
+        if kind == "trust":
+            spec["radius"] = 1.0 / spec["damping"]
+        case = {"kind": "edithist", "spec": spec, "seed": rng.randrange(1 << 30), "n": 24, "groups": rng.choice([1, 2, 3])}
+        reqs += run_edithist_case(ctx, case)
+        ctx.count(f"class.edit-hist.{kind}.groups{case['groups']}")
+        ctx.note_case(("edithist", kind, case["groups"], i), True)
+    settle_updates(ctx, reqs, "edithist")
+
+
+def run_hist_stream(ctx: Ctx, n, rng=None):
+    rng = rng or ctx.rng
     items = []
     for i in range(n):
         spec = gen_strategy_spec(rng, kind=rng.choice(["adaptive", "trust", "trust"]))
@@ -1320,8 +1616,8 @@ def settle_hist(ctx: Ctx, items):
 
 # ============================================================================ stream: RobustModel.loss
 
-def run_loss_stream(ctx: Ctx, n):
-    rng = ctx.rng
+def run_loss_stream(ctx: Ctx, n, rng=None):
+    rng = rng or ctx.rng
     P = pp()
     items = []
     for i in range(n):
@@ -1341,7 +1637,9 @@ def run_loss_stream(ctx: Ctx, n):
         seed = rng.randrange(1 << 30)
         case = {"kind": "loss", "nout": nout, "dtype": dtype, "kernel": kspec, "seed": seed,
                 "shapes": [[rng.choice([1, 2, 3])] * rng.randint(0, 2) + [rng.choice([1, 2, 3, 6])] for _ in range(nout)],
-                "scale": rng.choice([1e-3, 0.3, 1.0, 30.0])}
+                "scale": rng.choice([1e-3, 0.3, 1.0, 30.0]),
+                # one output mixing regimes item by item: exact zero rows, tiny, on the Huber threshold, ordinary, large
+                "mixed": rng.random() < 0.5}
         items.append(loss_case(ctx, case))
         ctx.count(f"loss.nout{nout}.{'none' if kspec is None else ('single' if isinstance(kspec[0], str) else 'list')}")
         ctx.note_case(("loss", nout, dtype, str(kspec)), True)
@@ -1360,7 +1658,17 @@ def loss_case(ctx, case):
     P = pp()
     dt = getattr(torch, case["dtype"])
     g = torch.Generator().manual_seed(case["seed"])
-    outs = [(torch.randn(*shp, generator=g, dtype=torch.float64) * case["scale"]).to(dt) for shp in case["shapes"]]
+    outs = [(torch.randn(*shp, generator=g, dtype=torch.float64) * case["scale"]) for shp in case["shapes"]]
+    if case.get("mixed"):
+        deltas = [kk[1] for kk in kernel_list(case["kernel"]) if kk is not None] or [1.0]
+        ladder = [0.0, 1e-12, 1e-4, deltas[0], deltas[0] * (1 + 2.0 ** -20), deltas[0] * (1 - 2.0 ** -20), 1.0, 30.0, 1e4]
+        for o in outs:
+            rows = o.reshape(-1, o.shape[-1])
+            for r in range(rows.shape[0]):
+                nrm = float(rows[r].norm())
+                tgt = ladder[int(torch.randint(0, len(ladder), (1,), generator=g))]
+                rows[r] = rows[r] * (tgt / nrm) if nrm > 0 else rows[r] * 0
+    outs = [o.to(dt) for o in outs]
 
     class Fixed(nn.Module):
         def __init__(self):
@@ -1455,7 +1763,37 @@ def gen_scenario(rng, quick, opt="lm"):
     if opt == "gn":
         scn["bad"] = [0] * ncalls
         scn["good_scale"] = rng.choice([1.0, 1.0, 0.5, -2.0, 3.0])
+    harden_scenario(rng, scn)
     return scn
+
+
+def harden_scenario(rng, scn):
+    """per-call variation of everything the caller controls, views / aliases, extreme-but-valid settings"""
+    fam, opt, ncalls, reject = scn["family"], scn["opt"], scn["ncalls"], scn.get("reject", 0)
+    if rng.random() < 0.6:
+        scn["forms"] = [rng.choice(["plain", "clone", "strided", "slice", "transposed"]) for _ in range(min(ncalls, 6))]
+    if fam in ("lin", "cubic", "rosen", "expfit", "atan", "mixed") and rng.random() < 0.35:
+        scn["param_view"] = rng.choice(["slice", "strided"])
+    if opt == "lm" and ncalls >= 2:
+        kind = scn["strategy"]["kind"]
+        if rng.random() < 0.3:
+            keys = {"constant": ["damping"], "adaptive": ["damping", "high", "low", "up", "down"],
+                    "trust": ["damping", "high", "low", "up", "down", "factor"]}[kind]
+            edits = []
+            for _ in range(rng.choice([1, 1, 2])):
+                key = rng.choice(keys)
+                val = {"damping": rng.choice([1e-9, 1e-3, 1.0, 50.0]), "high": rng.choice([0.25, 0.9]), "low": rng.choice([2.0 ** -10, 0.2]),
+                       "up": rng.choice([1.5, 10.0]), "down": rng.choice([0.1, 0.5, 0.9]), "factor": rng.choice([0.25, 0.9])}[key]
+                edits.append([rng.randrange(1, ncalls), key, val])
+            scn["pg_edits"] = edits
+        if rng.random() < 0.25:
+            scn["reject_edits"] = [[rng.randrange(1, ncalls), rng.choice([0, 1, 2, reject + 3])]]
+    if rng.random() < 0.06 and opt == "lm":
+        scn["reject"] = rng.choice([24, 40])            # beyond the documented default, still valid
+    if rng.random() < 0.08:
+        scn["ascale"] = rng.choice([1e-8, 1e8])
+    if rng.random() < 0.05:
+        scn["start"] = 0.0 if fam in ("lin", "so3", "se3") else scn["start"]
 
 
 def script_scenarios(rng, rejects, kinds, ncalls_extra=True):
@@ -1484,16 +1822,10 @@ def script_scenarios(rng, rejects, kinds, ncalls_extra=True):
 def run_opt_stream(ctx: Ctx, scns):
     collect = {"upd": [], "lm": [], "gn": []}
     for i, scn in enumerate(scns):
-        try:
+        if scn.get("pair"):
+            run_pair(ctx, scn, collect)
+        else:
             run_optimizer_scenario(ctx, scn, collect)
-        except (IndexError, KeyError) as e:
-            # the recorded event sequence does not have the structure the loop model implies (e.g. an update without a
-            # solve, a missing attribute): that is a model/implementation disagreement, not a tool failure
-            import traceback
-            tb = traceback.format_exc()
-            if "/pypose/" in tb:
-                raise
-            ctx.disagree("protocol", scn, f"observed event sequence breaks the loop protocol: {type(e).__name__}: {e}; {tb[-300:]}")
         if i < 2:
             ctx.sample({"stream": scn["opt"], **{k: v for k, v in scn.items() if k not in ("bad",)}}, cap=8)
     settle_updates(ctx, collect["upd"], "lm-upd")
@@ -1510,22 +1842,177 @@ def run_opt_stream(ctx: Ctx, scns):
     settle_gn(ctx, collect["gn"])
 
 
+def run_pair(ctx: Ctx, scn, collect):
+    """two LM optimizers on two different problems share ONE strategy object; their step() calls are interleaved
+    (`pattern`: string over A/B). Each has its own param group, so each must behave exactly as if it were alone."""
+    other = dict(scn["pair"]["other"])
+    other["strategy"] = scn["strategy"]
+    other["pair_role"] = "B"
+    inner = make_strategy(scn["strategy"])
+    gens = {"A": scenario_steps(ctx, scn, collect, inner), "B": scenario_steps(ctx, other, collect, inner)}
+    # failures found while running B are reported with the whole pair so that the replay re-creates the sharing
+    n0 = len(ctx.failures)
+    for ch in scn["pair"]["pattern"] + "AB" * 40:
+        if ch in gens:
+            try:
+                next(gens[ch])
+            except StopIteration:
+                del gens[ch]
+        if not gens:
+            break
+    for f in ctx.failures[n0:]:
+        if f["case"] is other:
+            f["case"] = scn
+            f["what"] += " [second optimizer of a pair sharing one strategy object]"
+
+
+def pair_scenarios(rng, n, quick=True):
+    out = []
+    for _ in range(n):
+        a = gen_scenario(rng, quick, "lm")
+        b = gen_scenario(rng, quick, "lm")
+        if a["strategy"]["kind"] == "constant":
+            a["strategy"] = gen_strategy_spec(rng, kind=rng.choice(["adaptive", "trust"]))
+        for x in (a, b):
+            x["ncalls"] = max(2, min(x["ncalls"], 5))
+            x.pop("pg_edits", None)
+        b.pop("strategy", None)
+        a["pair"] = {"other": b, "pattern": "".join(rng.choice("AB") for _ in range(12))}
+        out.append(a)
+    return out
+
+
+def corpus_scenarios():
+    """deterministic corner corpus (independent of VERIF_SEED), run before anything random"""
+    import random
+    rc = random.Random(0xC08)
+    out = []
+    # every ending after every k <= reject+1 rejections, three strategies, three calls (counter / cache / damping carry over)
+    out += script_scenarios(rc, [0, 1, 3], ["constant", "adaptive", "trust"])
+    out += script_scenarios(rc, [16], ["trust"])
+    dflt = {"constant": {"kind": "constant", "damping": 1e-4, "high": 0.5, "low": 1e-3, "up": 2.0, "down": 0.5, "factor": 0.5,
+                         "min": 1e-6, "max": 1e16},
+            "adaptive": {"kind": "adaptive", "damping": 1e-2, "high": 0.5, "low": 1e-3, "up": 3.0, "down": 0.4, "factor": 0.5,
+                         "min": 1e-6, "max": 1e16},
+            "trust": {"kind": "trust", "damping": 1e-3, "radius": 1e3, "high": 0.5, "low": 1e-3, "up": 2.0, "down": 0.5,
+                      "factor": 0.5, "min": 1e-6, "max": 1e16}}
+
+    def base(fam, kind, **kw):
+        scn = {"kind": "opt", "opt": "lm", "family": fam, "fam_seed": 1234, "dtype": "float64", "reject": 5, "ncalls": 4,
+               "n": 2, "M": 2, "d": 1, "logcond": 0, "ascale": 1.0, "start": 1.0, "lm_min": 1e-6, "lm_max": 1e32,
+               "solver": "cholesky", "vectorize": True, "kernel": None, "strategy": dict(dflt[kind]), "bad": [0] * 8,
+               "bad_scale": -5.0, "good_scale": 1.0, "raise_at": [], "raise_ct": []}
+        scn.update(kw)
+        return scn
+    for kind in ("constant", "adaptive", "trust"):
+        # natural rejections (Newton on atan overshoots) and the solver raising at the j-th solve of the run, every j
+        for j in range(0, 9):
+            out.append(base("atan", kind, n=2, start=0.2, raise_at=[j], ncalls=4))
+        # engineered: k worse trials then raise, directly after the rejections, and again in the next call
+        for k in (1, 2, 5):
+            out.append(base("lin", kind, bad=[k, k, 0, 0], raise_ct=[[0, k], [1, 1]], good_scale=0.3))
+        # stale reject counter / cached loss: a call with rejections followed by a call with reject+1 worse trials
+        out.append(base("lin", kind, reject=2, bad=[2, 3, 3, 0], good_scale=0.3, ncalls=4))
+        out.append(base("lin", kind, reject=0, bad=[0, 1, 1, 0], good_scale=0.3, ncalls=4))
+        # views / aliases / per-call presentation, parameters inside larger buffers, caller edits between calls
+        out.append(base("lin", kind, forms=["plain", "strided", "slice", "transposed"], param_view="slice", M=3, d=2, bad=[1, 0, 2, 0], good_scale=0.3))
+        out.append(base("atan", kind, n=3, forms=["slice", "strided", "transposed"], param_view="strided", start=0.2))
+        out.append(base("se3", kind, M=2, forms=["strided", "plain", "slice"], start=0.5, bad=[1, 2, 0, 1], good_scale=0.3))
+        out.append(base("mixed", kind, M=1, kernel=[["huber", 0.3], ["cauchy", 1.0]], forms=["clone", "strided"], param_view="slice",
+                        start=0.5, bad=[2, 0, 1, 0], good_scale=0.3))
+        out.append(base("lin", kind, pg_edits=[[1, "damping", 50.0], [2, "damping", 1e-9]] + ([[3, "up", 10.0]] if kind != "constant" else []),
+                        reject_edits=[[1, 0], [2, 3]], bad=[1, 1, 4, 0], good_scale=0.3))
+        # extreme but valid: reject far beyond the default, starting on the optimum (zero steps), huge / tiny scales, float32
+        out.append({"kind": "opt", "opt": "lm", "family": "script1d", "fam_seed": 0, "dtype": "float64", "reject": 40, "ncalls": 2,
+                    "scripts": ["W" * 40 + "B", "W" * 41], "start": 1.0, "lm_min": 1e-6, "lm_max": 1e32, "solver": "solve",
+                    "kernel": None, "strategy": dict(dflt[kind]), "n": 1, "M": 1, "d": 1})
+        out.append({"kind": "opt", "opt": "lm", "family": "script1d", "fam_seed": 0, "dtype": "float32", "reject": 2, "ncalls": 3,
+                    "scripts": ["B", "WB", "WWW"], "start": 0.0, "lm_min": 1e-6, "lm_max": 1e32, "solver": "solve",
+                    "kernel": None, "strategy": dict(dflt[kind]), "n": 1, "M": 1, "d": 1})
+        out.append(base("lin", kind, ascale=1e8, dtype="float64", bad=[1, 0, 2, 0], good_scale=0.3))
+        out.append(base("lin", kind, ascale=1e-8, dtype="float32", bad=[1, 0, 2, 0], good_scale=0.3))
+        ext = dict(dflt[kind], up=1e6, down=1e-8, factor=1e-6, min=1e-300, max=1e300)
+        out.append(base("lin", kind, strategy=ext, bad=[3, 0, 5, 0], good_scale=0.3))
+    # GaussNewton: history with raises, views, kernels
+    for fam in ("lin", "so3"):
+        out.append({**base(fam, "constant", M=1), "opt": "gn", "ncalls": 5, "raise_at": [1, 3], "forms": ["strided", "plain", "slice"],
+                    "kernel": ["huber", 1.0], "solver": "pinv", "good_scale": 0.5})
+    # two optimizers sharing one strategy object
+    for kind in ("adaptive", "trust"):
+        a = base("lin", kind, bad=[1, 2, 0, 1], good_scale=0.3, ncalls=4)
+        b = base("atan", kind, start=0.2, ncalls=4, dtype="float32", fam_seed=77)
+        b.pop("strategy")
+        a["pair"] = {"other": b, "pattern": "ABBAABAB"}
+        out.append(a)
+    return out
+
+
+def alias_probes(ctx: Ctx):
+    """OBSERVATIONS (recorded in the evidence notes, not verdicts): what the unchanged implementation does when the
+    caller steps outside the property's premise (a history that consists of step() calls only)."""
+    P = pp()
+
+    class Q(nn.Module):
+        def __init__(self):
+            super().__init__()
+            self.t = nn.Parameter(torch.tensor([3.0], dtype=torch.float64))
+
+        def forward(self, x):
+            return (self.t * x).view(1, 1)
+    x = torch.tensor(1.0, dtype=torch.float64)
+    try:
+        m = Q()
+        opt = P.optim.LM(m, strategy=P.optim.strategy.Constant(1e-6), reject=3)
+        r0 = opt.step(x)
+        same = r0 is opt.loss
+        ctx.count(f"probe.returned-tensor-is-the-cache={same}")
+        with torch.no_grad():
+            m.t.copy_(torch.tensor([5.0], dtype=torch.float64))
+        opt.step(x)
+        stale = float(opt.last) != 25.0
+        ctx.count(f"probe.cache-stale-after-caller-moved-parameters={stale}")
+        ctx.notes.append(f"probe: step() returns its cache tensor by reference: {same}; optimizer.last after the caller moved the "
+                         f"parameters between calls is the stale cache: {stale} (both outside the property's premise; see notes/C08.md)")
+    except Exception as e:
+        ctx.notes.append(f"probe failed: {e!r}")
+
+
+def run_corpus(ctx: Ctx):
+    import random
+    rc = random.Random(0xC08C)
+    run_upd_stream(ctx, 300, rc)
+    run_hist_stream(ctx, 24, rc)
+    run_edithist_stream(ctx, 20, rc)
+    run_loss_stream(ctx, 40, rc)
+    run_opt_stream(ctx, corpus_scenarios())
+    alias_probes(ctx)
+
+
+def reset_shared():
+    _SHARED["solvers"].clear()
+    _SHARED["kernels"].clear()
+
+
 def run(ctx: Ctx):
     rng = ctx.rng
     torch.set_num_threads(1)      # tiny tensors: threads only add contention on a shared box
-    run_upd_stream(ctx, ctx.pick(1500, 12000))
+    reset_shared()
+    run_corpus(ctx)
+    run_upd_stream(ctx, ctx.pick(1200, 12000))
     run_hist_stream(ctx, ctx.pick(60, 600))
+    run_edithist_stream(ctx, ctx.pick(20, 300))
     run_loss_stream(ctx, ctx.pick(80, 800))
     # scripted 1-D: exhaustive endings for every reject (quick: a rotating subset of rejects + all small ones)
     if ctx.quick:
-        rejects = [0, 1, 2, 3] + sorted(rng.sample(range(4, 17), 2))
+        rejects = [2] + sorted(rng.sample(range(4, 16), 2))
         kinds = [rng.choice(["constant", "adaptive", "trust"])]
         scr = script_scenarios(rng, rejects, kinds)
     else:
         scr = script_scenarios(rng, list(range(0, 17)), ["constant", "adaptive", "trust"])
     run_opt_stream(ctx, scr)
-    scns = [gen_scenario(rng, ctx.quick, "lm") for _ in range(ctx.pick(120, 900))]
+    scns = [gen_scenario(rng, ctx.quick, "lm") for _ in range(ctx.pick(110, 900))]
     scns += [gen_scenario(rng, ctx.quick, "gn") for _ in range(ctx.pick(25, 200))]
+    scns += pair_scenarios(rng, ctx.pick(8, 80), ctx.quick)
     run_opt_stream(ctx, scns)
 
 
@@ -1573,9 +2060,13 @@ def replay(ctx: Ctx, case) -> bool:
     c = case["case"]
     kind = c.get("kind")
     n0 = len(ctx.failures)
+    reset_shared()
     if kind == "opt":
         collect = {"upd": [], "lm": [], "gn": []}
-        run_optimizer_scenario(ctx, c, collect)
+        if c.get("pair"):
+            run_pair(ctx, c, collect)
+        else:
+            run_optimizer_scenario(ctx, c, collect)
         settle_updates(ctx, collect["upd"], "lm-upd")
         settle_lm(ctx, collect["lm"], set())
         settle_gn(ctx, collect["gn"])
@@ -1594,6 +2085,8 @@ def replay(ctx: Ctx, case) -> bool:
         settle_updates(ctx, [upd_request(c, spec["kind"], up, c["dtype"], where="direct update")], "upd")
     elif kind == "hist":
         settle_hist(ctx, [run_hist_case(ctx, c)])
+    elif kind == "edithist":
+        settle_updates(ctx, run_edithist_case(ctx, c), "edithist")
     elif kind == "loss":
         it = loss_case(ctx, c)
         print("  RobustModel.loss:", it["got"], " Σρ(‖r‖²):", it["oracle"])
